@@ -132,7 +132,12 @@ impl<W: 'static, R: 'static, T: 'static> RuntimeScopeTemplate<W, R, T> {
                 let mut ancestor = stack_parent;
                 loop {
                     match ancestor {
-                        None => break ancestor,
+                        // a caller that outlived its own defining frame has no scope chain, but the root scope is always alive
+                        None => {
+                            break stack_parent
+                                .map(|p| p.root.unwrap_or(p))
+                                .filter(|r| r.template.id == parent_id)
+                        }
                         Some(p) if p.template.id == parent_id => break ancestor,
                         Some(p) => ancestor = p.scope_parent,
                     }
@@ -173,6 +178,8 @@ pub struct RuntimeScope<'a, W, R, T> {
     pub(crate) cells: Vec<TemplatedEvaluationCell<W, R, T>>,
     height: StackDepth,
     scope_parent: Option<&'a Self>,
+    /// the bottom frame of the stack (None for the root scope itself)
+    root: Option<&'a Self>,
     template: Rc<RuntimeScopeTemplate<W, R, T>>,
 }
 
@@ -183,12 +190,14 @@ impl<'a, W: 'static, R: 'static, T: 'static> RuntimeScope<'a, W, R, T> {
         rt: RTCell<W, R, T>,
         mut args: Vec<EvaluatedValue<W, R, T>>,
     ) -> RuntimeResult<Rc<Self>> {
+        let root = stack_parent.map(|p| p.root.unwrap_or(p));
         let scope_parent = if let Some(parent_id) = template.scope_parent_id {
             {
                 let mut ancestor = stack_parent;
                 loop {
                     match ancestor {
-                        None => break ancestor,
+                        // a caller that outlived its own defining frame has no scope chain, but the root scope is always alive
+                        None => break root.filter(|r| r.template.id == parent_id),
                         Some(p) if p.template.id == parent_id => break ancestor,
                         Some(p) => ancestor = p.scope_parent,
                     }
@@ -212,6 +221,7 @@ impl<'a, W: 'static, R: 'static, T: 'static> RuntimeScope<'a, W, R, T> {
                 .collect(),
             height: stack_parent.map_or(StackDepth(0), |p| p.height + StackDepth(1)),
             scope_parent,
+            root,
             template: template.clone(),
         };
         #[cfg(feature = "verif")]
